@@ -1143,9 +1143,9 @@ class dictable(Dict):
                 _print_cols(*lcols)
         cols = []
         for lcol, rcol in zip(lcols, rcols):
-            if is_str(lcol):
+            if is_str(lcol) or lcol in self.keys(): ## a column key need not be a string: xyz / pivot make one column per y value
                 cols.append(lcol)
-            elif is_str(rcol):
+            elif is_str(rcol) or rcol in other.keys():
                 cols.append(rcol)
             else:
                 raise ValueError('Cannot use a formula to inner join on both left and right %s %s'%(lcol, rcol))
